@@ -1404,6 +1404,51 @@ func (e *Engine) checkCuts(st *State, fr *Frame) {
 	e.checkCutsAt(st, fr, false)
 }
 
+// effectiveAfterN: a clause positioned at the k-th assignment of a local (`@x#k`) is placed at the last
+// assignment when the function assigns x fewer than k times (two assignments merged into one by a refactoring).
+// Positions only decide where a proof step is attempted, so this cannot make a wrong function verify.
+func (e *Engine) effectiveAfterN(fn *ssa.Function, a *Clause) int {
+	if a.AfterN <= 1 {
+		return a.AfterN
+	}
+	if e.staticBinds == nil {
+		e.staticBinds = map[*ssa.Function]map[string]int{}
+	}
+	m, ok := e.staticBinds[fn]
+	if !ok {
+		m = map[string]int{}
+		seen := map[string]map[ssa.Value]bool{}
+		for _, b := range fn.Blocks {
+			for _, in := range b.Instrs {
+				d, ok := in.(*ssa.DebugRef)
+				if !ok || d.IsAddr {
+					continue
+				}
+				if _, isConst := d.X.(*ssa.Const); isConst {
+					continue
+				}
+				id, ok := d.Expr.(interface{ String() string })
+				if !ok {
+					continue
+				}
+				n := id.String()
+				if seen[n] == nil {
+					seen[n] = map[ssa.Value]bool{}
+				}
+				if !seen[n][d.X] {
+					seen[n][d.X] = true
+					m[n]++
+				}
+			}
+		}
+		e.staticBinds[fn] = m
+	}
+	if sc := m[a.After]; sc > 0 && sc < a.AfterN {
+		return sc
+	}
+	return a.AfterN
+}
+
 func (e *Engine) checkCutsAt(st *State, fr *Frame, atReturn bool) {
 	if fr.contract == nil || len(fr.contract.Asserts) == 0 {
 		return
@@ -1415,7 +1460,7 @@ func (e *Engine) checkCutsAt(st *State, fr *Frame, atReturn bool) {
 		posReady := true
 		if a.After == "return" {
 			posReady = atReturn
-		} else if a.After != "" && st.binds[a.After] < a.AfterN {
+		} else if a.After != "" && st.binds[a.After] < e.effectiveAfterN(fr.fn, a) {
 			posReady = false
 		}
 		if a.Guard != nil && posReady {
@@ -1443,7 +1488,7 @@ func (e *Engine) checkCutsAt(st *State, fr *Frame, atReturn bool) {
 		ready := true
 		if a.After == "return" {
 			ready = atReturn
-		} else if a.After != "" && st.binds[a.After] < a.AfterN {
+		} else if a.After != "" && st.binds[a.After] < e.effectiveAfterN(fr.fn, a) {
 			ready = false
 		}
 		ids := freeIdents(a.Expr)
